@@ -44,6 +44,38 @@ def run_batch(cmd, scripts, env=None, timeout=600):
     return rc, res, err
 
 
+def run_batch_parallel(cmd, scripts, env=None, timeout=600, nproc=4):
+    """run_batch over nproc processes (contiguous chunks).  Returns (worst rc, per-script lines,
+    stderr of the first failing chunk)."""
+    from concurrent.futures import ThreadPoolExecutor
+    if len(scripts) < 2 * nproc:
+        return run_batch(cmd, scripts, env=env, timeout=timeout)
+    size = (len(scripts) + nproc - 1) // nproc
+    chunks = [scripts[i:i + size] for i in range(0, len(scripts), size)]
+    with ThreadPoolExecutor(max_workers=nproc) as ex:
+        outs = list(ex.map(lambda c: run_batch(cmd, c, env=env, timeout=timeout), chunks))
+    rc, res, err = 0, [], ""
+    for r, lines, e in outs:
+        if r != 0 and rc == 0:
+            rc, err = r, e
+        res += lines
+    return rc, res, err
+
+
+def compare_results(scripts, cres, mres, nfields=5):
+    """First differing / missing line per script: list of Diff (stderr left empty)."""
+    out = []
+    for s, c, m in zip(scripts, cres, mres):
+        for i in range(len(s)):
+            if i >= len(c):
+                out.append(Diff(s, i, None, m[i] if i < len(m) else None, "", 1))
+                break
+            if i < len(m) and norm_line(c[i], nfields) != norm_line(m[i], nfields):
+                out.append(Diff(s, i, c[i], m[i], "", 0))
+                break
+    return out
+
+
 def norm_line(line, nfields=5):
     """The compared part of an outcome line: ret errno payload digest-root digest-aux.
     nfields may also be a function line -> comparable string."""
